@@ -954,8 +954,17 @@ static int send_frame(const struct websocket *s, uint8_t *payload, size_t length
 		return -1;
 	}
 	if (s->extension_compression.accepted && (type < WS_CLOSE_FRAME)) {
-		payload_comp = malloc(length * 2);
-		length_comp = websocket_compress(s, payload_comp, payload, length);
+		size_t bound = websocket_compress_bound(length);
+		payload_comp = malloc(bound);
+		if (unlikely(payload_comp == NULL)) {
+			return -1;
+		}
+		int compressed = websocket_compress_bounded(s, payload_comp, bound, payload, length);
+		if (unlikely(compressed < 0)) {
+			free(payload_comp);
+			return -1;
+		}
+		length_comp = (size_t)compressed;
 		rsv = 0x40;
 		payload_ptr = payload_comp;
 	}
